@@ -5,6 +5,10 @@ package poll
 
 import (
 	"encoding/json"
+	"errors"
+	"net/http"
+	"net/url"
+	"strings"
 
 	"github.com/prometheus/client_golang/prometheus"
 	"github.com/resonatehq/resonate/internal/aio"
@@ -193,4 +197,73 @@ func VH_C18_Loop() {
 		vx.Assert(vx.ChanSends(a.ch) == 0 || !vx.ChanClosed(a.ch), "C18:loop-nothing-handed-to-a-closed-connection")
 	}}
 	w.Start()
+}
+
+// ---- the listener side: PollHandler.ServeHTTP registers the connection under exactly the group and id of
+// the request path (the decoded path, which is what the sender's poll://group/id translation produces), and
+// relays each message as one server-sent event.
+
+type vhWriter struct {
+	hdr     http.Header
+	written [][]byte
+	fail    bool
+	flushes int
+}
+
+func (w *vhWriter) Header() http.Header { return w.hdr }
+func (w *vhWriter) Write(b []byte) (int, error) {
+	if w.fail {
+		return 0, errors.New("write failed")
+	}
+	w.written = append(w.written, b)
+	return len(b), nil
+}
+func (w *vhWriter) WriteHeader(int) {}
+func (w *vhWriter) Flush()          { w.flushes++ }
+
+func VH_PL_PollHandler() {
+	vx.BlockOK()
+	connect, disconnect := make(chan *connection, 1), make(chan *connection, 1)
+	h := &PollHandler{config: &Config{BufferSize: 2}, metrics: metrics.New(prometheus.NewRegistry()), connect: connect, disconnect: disconnect}
+	group, id := vx.String("group"), vx.String("id")
+	vx.Assume(vx.And(!strings.Contains(group, "/"), !strings.Contains(id, "/"), id != ""))
+	method := []string{"GET", "POST"}[vx.Choose(2)]
+	full := vx.Choose(2) == 1
+	if full {
+		connect <- &connection{group: "x", id: "x", ch: make(chan []byte, 1)} // the worker has not caught up: registration queue full
+	}
+	w := &vhWriter{hdr: http.Header{}, fail: vx.Choose(2) == 1}
+	body := vx.Bytes("body")
+	vx.Assume(!vx.BytesNil(body))
+	step := 0
+	var conn *connection
+	vx.OnSelect(func() {
+		// the worker takes the registration, then hands one message to the connection, then the client goes away
+		if conn == nil && !full && len(connect) == 1 {
+			conn = <-connect
+			vx.Assert(vx.And(conn.group == group, conn.id == id), "C19:listener-registered-under-the-group-and-id-of-its-path")
+			vx.Assert(cap(conn.ch) == 2 && !vx.ChanClosed(conn.ch), "C18:listener-connection-has-the-configured-buffer")
+		}
+		if conn != nil && step == 0 {
+			step = 1
+			conn.ch <- body
+		} else if conn != nil && step == 1 && len(conn.ch) == 0 {
+			step = 2
+			vx.CancelRequest()
+		}
+	})
+	h.ServeHTTP(w, &http.Request{Method: method, URL: &url.URL{Path: "/" + group + "/" + id}})
+	// the handler returned
+	if method != "GET" || full {
+		vx.Reach("refused")
+		vx.Assert(vx.HttpErrors() == 1 && conn == nil, "C18:refused-listener-is-not-registered")
+		vx.Assert(vx.Implies(method == "GET" && full, vx.HttpErrorCode(0) == 429), "C18:registration-queue-full-is-too-many-requests")
+		return
+	}
+	vx.Reach("served")
+	vx.Assert(conn != nil && vx.HttpErrors() == 0, "C18:listener-registered")
+	vx.Assert(len(disconnect) == 1, "C18:listener-that-went-away-reports-its-disconnect-once")
+	if !w.fail {
+		vx.Assert(len(w.written) == 1 && vx.BytesStr(w.written[0]) == "data: "+vx.BytesStr(body)+"\n\n" && w.flushes >= 2, "C20:message-relayed-as-one-event-verbatim")
+	}
 }
